@@ -64,4 +64,5 @@ var genericCmds = map[string]func(common.Args, *common.Out) error{
 	"levelcheck":  generic.LevelCheck,
 	"schemacheck": generic.SchemaCheck,
 	"emureplay":   generic.EmuReplay,
+	"gwreplay":    generic.WideReplay,
 }
